@@ -18,7 +18,7 @@ Require Import VParse SpecParse SpecSound SpecContains.
 Require Import VComplete VTop VTop2.
 Require Import ReqModel ReqSpec ReqScanP ReqTokP ReqListP ReqMarkP ReqParseP ReqSetP ReqTopP ReqEqP ReqSoundP ReqRoundP ReqPep440P ReqRoundFullP.
 Require Import MkLayoutP MkLexP SetsModel Sorted.
-Require Import ReqCanonP ReqSetsLinkP ReqClauseP ReqStrFormP ReqGrammarP.
+Require Import ReqCanonP ReqSetsLinkP ReqClauseP ReqStrFormP ReqGrammarP ReqExactP.
 Open Scope N_scope.
 
 (* 1. however whitespace is laid out, the grammar recovers name, extras, the text of exactly the clause list, URL and the marker as the
@@ -258,8 +258,25 @@ Theorem C08_clause_in_requirement name cl sp : rq_valid_ident name = true -> hd_
 Proof. exact (clause_in_requirement name cl sp). Qed.
 Print Assumptions C08_clause_in_requirement.
 
+(* 13. the known gap D7, exactly.  A "===" token directly followed by the comma swallows the following clauses up to the next blank,
+       ")" , ";" or the end; the requirement is still decomposed correctly iff every swallowed clause is spelled ",clause" with no blank
+       after the comma and no whitespace after the operator (rq_chain_okb false items = true, implied by the old rq_no_d7) ... *)
+Theorem C08_requirement_render_exact sp m : rq_wf_x sp m -> rq_lits_ok m ->
+  Requirement (rq_render sp) =
+  RqOk {| q_name := rs_name sp; q_extras := rq_sp_extras sp; q_specs := map rq_clause_spec (rq_sp_clauses sp);
+          q_url := rq_opt_url (rq_sp_url sp); q_marker := option_map norm_l m |}.
+Proof. exact (Requirement_render_x sp m). Qed.
+Print Assumptions C08_requirement_render_exact.
+Theorem C08_old_condition_implies_exact items : rq_no_d7 items -> rq_d7_ok items.
+Proof. exact (no_d7_chain_ok items). Qed.
+Print Assumptions C08_old_condition_implies_exact.
+(* ... and otherwise it is REJECTED, on the whole class (every other hypothesis of the decomposition theorem in place) *)
+Theorem C08_D7_rejected sp : rq_wf_d7 sp -> Requirement (rq_render sp) = RqInvalid.
+Proof. exact (d7_rejected sp). Qed.
+Print Assumptions C08_D7_rejected.
+
 (* closed boolean non-vacuity checks of the new theorems (each evaluates model functions on concrete inputs) *)
-Example C08_round5_checks : nogap_check = true /\ link_check = true /\ cir_check = true /\ sf_check = true /\ gr_check = true.
+Example C08_round5_checks : nogap_check = true /\ link_check = true /\ cir_check = true /\ sf_check = true /\ gr_check = true /\ x_check = true.
 Proof. repeat split; vm_compute; reflexivity. Qed.
 
 (* ---- non-vacuity ---- *)
